@@ -33,6 +33,11 @@ def gen_cases(rng, tier):
     def add(**kw):
         kw["id"] = len(cases)
         kw["seed"] = rng.randrange(1, 2 ** 31)
+        # the operator handed to the optimiser is varied independently of model.ham_terms in every class: explicit terms=, the MPO's own
+        # offset, a scaled MPO, a sum of two MPOs, a model with EMPTY ham_terms plus explicit terms (not with on-the-fly swapping, which
+        # rebuilds the operator from the model)
+        if not kw.get("ofs") and "hvar" not in kw and rng.random() < (0.75 if kw.get("omega") is not None else 0.5):
+            kw["hvar"] = rng.choice(["terms", "offset", "scale", "sum", "empty"])
         cases.append(kw)
 
     def proc(k, full=False, lowm=(2, 3, 4, 6, 10)):
@@ -149,15 +154,17 @@ def gen_cases(rng, tier):
     # (n) inverse = -1 on both sides of the dense / iterative switch, the same problem through both solvers
     for rep in range(1 * mult):
         ms = rng.randrange(1, 2 ** 31)
+        hv = rng.choice([None, "terms", "offset", "sum", "empty"])
         for algo in ("davidson", "direct"):
-            add(cls="inverse", group="inv%d" % rep, kind="osc", n=4, nbas=6, sector=None, method="2site", prep="left", inverse=-1.0,
+            add(cls="inverse", hvar=hv, group="inv%d" % rep, kind="osc", n=4, nbas=6, sector=None, method="2site", prep="left", inverse=-1.0,
                 procedure=[[40, 0.2], [40, 0.0], [40, 0.0], [40, 0.0]], nroots=1, m_init=8, algo=algo, e_rtol=1e-12, e_atol=1e-12)
             cases[-1]["seed"] = ms
     if tier != "quick":
         for rep in range(2):
             ms = rng.randrange(1, 2 ** 31)
+            hv = rng.choice([None, "terms", "offset", "sum", "empty"])
             for algo in ("davidson", "direct"):
-                add(cls="inverse", group="invs%d" % rep, kind="spin", n=10, qn=False, sector=None, method="2site", prep="left", inverse=-1.0,
+                add(cls="inverse", hvar=hv, group="invs%d" % rep, kind="spin", n=10, qn=False, sector=None, method="2site", prep="left", inverse=-1.0,
                     procedure=[[32, 0.2], [32, 0.0], [32, 0.0]], nroots=1, m_init=20, algo=algo)
                 cases[-1]["seed"] = ms
     # (o) corpus: the input of fix 9c06eb1 -- an exception raised by the optimiser on a legal input is a failure
@@ -204,6 +211,8 @@ def gen_cases(rng, tier):
     def addt(**kw):
         kw["id"] = len(trees)
         kw["seed"] = rng.randrange(1, 2 ** 31)
+        if "group" not in kw and rng.random() < 0.5:
+            kw["hvar"] = "terms"
         trees.append(kw)
     # corpus (always first): a truncating tree run -- optimize_ttns leaves the optimised TTNS unnormalised (see notes/C08.md)
     trees.append({"id": 0, "seed": 260653340, "topo": "binary", "procedure": [[6, 0.3], [3, 0.1], [2, 0]], "m_init": 6, "algo": "davidson",
@@ -754,6 +763,7 @@ def run(ctx):
                 (n_ttrace, n_ttrace_ok, len(tshapes), n_heff, n_heff_ok),
         "samples": samples[:3],
         "exhaustive": False,
-        "input_distribution": {"chain_cases_by_class": dist, "tree_cases_by_topology": tdist, "skipped_at_setup": n_skip, "optimiser_raised": n_crash,
+        "input_distribution": {"operator_handed_in": {str(k): sum(1 for c in cases if c.get("hvar") == k) for k in (None, "terms", "offset", "scale", "sum", "empty")},
+                               "chain_cases_by_class": dist, "tree_cases_by_topology": tdist, "skipped_at_setup": n_skip, "optimiser_raised": n_crash,
                                "trace_param_tuples": len(params), "tree_runs": n_tree},
     }
